@@ -20,7 +20,7 @@ def run(ctx):
     reference_languages(ctx, "R1", spec)
     probe_agreement(ctx, "R2")
     sort_key(ctx, "R3", n)
-    steps_and_order(ctx, "R4", n)
+    steps_and_order(ctx, "R4", n, spec)
     redirection_prestep(ctx, "R5", n)
     index_and_fragment(ctx, "R6", n, spec)
     # spelling of percent-escapes: shared byte-table facts
@@ -126,6 +126,22 @@ def reference_languages(ctx, rule, spec):
     except Unsupported as e:
         ctx.undecided(rule, "MISTAKES_RE: %s" % e)
     repair_function(ctx, rule)
+    # redirection inference runs before the '&amp;' repair and before the port rule: its own patterns must not care
+    im = repo.mod("infer_redirection")
+    for name, refpat, what, w in (
+        ("OBVIOUS_REDIRECTS_RE", r"&[aA][mM][pP](?:;|%3[bB])(?:url|next|u)=x", "a redirect key written after '&amp;' is not recognised: '?a=1&amp;url=...' and '?a=1&url=...' get two normalized forms", "http://a.com/?a=1&amp;url=http%3A%2F%2Fb.com"),
+        ("REDIRECTION_DOMAINS_RE", r"\.ampproject\.org(?::[0-9]{1,5})?/[cv]/(?:s/)?", "an AMP cache host with an explicit port is not resolved: ':443' changes the normalized form", "https://b-com.cdn.ampproject.org:443/c/s/b.com/x"),
+    ):
+        rx = repo.const(im, name)
+        ctx.rx("ural.infer_redirection." + name)
+        try:
+            A = Algebra()
+            cur = A.regex(rx.pattern, rx.flags, "fullmatch", name)
+            ref = A.regex(refpat, 0, "fullmatch")
+            wit = A.subset(ref, cur)
+            ctx.ob(rule, "%s/spelling-insensitive" % name, wit is None, "%s does not match %r: %s" % (name, wit, what), im.site(repo.const_node(im, name)), witness=w)
+        except Unsupported as e:
+            ctx.undecided(rule, "%s: %s" % (name, e))
     # CONTROL_CHARS
     from .c02 import control_chars_language
     control_chars_language(ctx, rule)
@@ -314,7 +330,7 @@ def _item(it):
     return it[0] if it[1] is None else "%s=%s" % it
 
 
-def steps_and_order(ctx, rule, n):
+def steps_and_order(ctx, rule, n, spec):
     ctx.rule(rule, "required steps and their order on normalize_url's terms: cleaning pass before parsing; '&amp;' repair before the query is split (under fix_common_mistakes); leading 'amp-' stripped before the sub-domain substitution; host lower-cased and punycode-decoded; default ports dropped; dot segments resolved; unescaping before the path / query heuristics; trailing slash and index page dropped under their options; scheme and userinfo dropped by default")
     fn = "normalize_url"
     site = n.site
@@ -341,16 +357,18 @@ def steps_and_order(ctx, rule, n):
                "normalize_url sorts the query items on still-escaped text: ?%7A=1&b=2 and ?z=1&b=2 sort differently", site, witness="http://a.com/?%7A=1&b=2")
     # host
     h = F.simplify(n.host, dflt)
-    ctx.ob(rule, fn + "/host/subdomain-sub", not F.unguarded_paths(h, U.is_attr("hostname"), NM.is_subdomain_sub), "normalize_url does not strip irrelevant sub-domains by default", site, witness="www.lemonde.fr")
-    order = NM.host_order(h, U.is_attr("hostname"))
-    ctx.ob(rule, fn + "/host/amp-prefix-before-subdomain-sub", order in ("amp-first", None) and order is not None,
-           "normalize_url applies the sub-domain substitution before stripping a leading 'amp-' (%s): amp-www.x.com keeps its 'www.'" % order, site, witness="https://amp-www.lefigaro.fr/x")
+    helpers = F.find_nodes(h, NM.is_host_helper, data_only=True)
+    ctx.ob(rule, fn + "/host/subdomain-sub", not F.unguarded_paths(h, U.is_attr("hostname"), NM.is_host_helper) and bool(helpers), "normalize_url does not strip irrelevant sub-domains by default (the shared host helper is not on the host chain)", site, witness="www.lemonde.fr")
+    for hc in F.find_nodes(n.host, NM.is_host_helper, data_only=True):
+        kw = NM.helper_kwargs(hc)
+        ctx.ob(rule, fn + "/host/helper-forwards-options", kw.get("normalize_amp") == ("param", "normalize_amp") and kw.get("strip_irrelevant_subdomains") == ("param", "strip_irrelevant_subdomains"),
+               "normalize_url does not hand normalize_amp / strip_irrelevant_subdomains to the host helper as they were given", site)
     ctx.ob(rule, fn + "/host/idna", not F.unguarded_paths(h, U.is_attr("hostname"), F.is_call(U.U + "decode_punycode_hostname")), "normalize_url does not punycode-decode the host", site)
+    for dn in F.find_nodes(h, F.is_call(U.U + "decode_punycode_hostname"), data_only=True):
+        ctx.ob(rule, fn + "/host/amp-prefix-before-idna", bool(F.find_nodes(dn[2][0], NM.is_host_helper, data_only=True)) if dn[2] else False,
+               "normalize_url decodes punycode before stripping a leading 'amp-': the prefix hides the 'xn--' header of its label, so amp-xn--caf-dma.fr and xn--caf-dma.fr get two normalized forms", site, witness="http://amp-xn--caf-dma.fr/")
+    NM.rule_host_helper(ctx, rule + "h", spec["subdomain_labels"], spec["subdomain_labels_amp"])
     ctx.ob(rule, fn + "/netloc/lower", "lower" in n.netloc_methods or not F.unguarded_paths(h, U.is_attr("hostname"), NM.is_lower), "normalize_url does not lower-case the netloc", site, witness="http://LeMonde.FR")
-    subs = F.find_nodes(h, NM.is_subdomain_sub)
-    for sx in subs:
-        pats, repl = NM.sub_patterns(sx)
-        ctx.ob(rule, fn + "/host/amp-pattern-by-default", pats == {NM.SUB_AMP_RE}, "normalize_url (normalize_amp=True) uses %s for the sub-domain substitution" % sorted(pats), site, witness="amp.lemonde.fr")
     # path
     p = F.simplify(n.path, dflt)
     for role, pred, msg, w in (
@@ -368,7 +386,7 @@ def steps_and_order(ctx, rule, n):
     ctx.ob(rule, fn + "/scheme/dropped-by-default", F.simplify(n.scheme, dflt) == ("const", ""), "normalize_url keeps the scheme by default", site)
     ctx.ob(rule, fn + "/userinfo/dropped-by-default", F.simplify(n.user, dflt) in (("const", None), ("const", "")) and F.simplify(n.password, dflt) in (("const", None), ("const", "")), "normalize_url keeps the userinfo by default", site)
     ctx.rule("R4p", "explicit default ports are dropped (table)")
-    U.port_drop_table(ctx, "R4p", fn, n.port, site)
+    U.port_drop_table(ctx, "R4p", fn, n.port, site, relative_as="https")
 
 
 def redirection_prestep(ctx, rule, n):
@@ -418,5 +436,9 @@ def index_and_fragment(ctx, rule, n, spec):
     t = F.simplify(n.fragment, {"strip_fragment": "except-routing", "quoted": False})
     uses = F.find_nodes(t, F.is_call(NM.N + "should_strip_fragment"))
     ctx.ob(rule, "fragment/except-routing-consults-predicate", bool(uses), "normalize_url(strip_fragment='except-routing') does not consult the routing-fragment predicate", n.site)
+    for u in uses:
+        bad = F.unguarded_paths(u[2][0], U.is_attr("fragment"), F.is_call(U.UNQUOTE["fragment"])) if u[2] else [u]
+        ctx.ob(rule, "fragment/routing-decided-on-unescaped-text", not bad,
+               "normalize_url decides whether the fragment is client-side routing on its still-escaped text: '#%2Froute' / '#%21/route' (the quoted canonical form of '#!/route') are dropped while '#/route' / '#!/route' are kept", n.site, witness="http://a.com/app#%21/route")
     t = F.simplify(n.fragment, {"strip_fragment": True, "quoted": False})
     ctx.ob(rule, "fragment/True-drops-everything", not F.find_nodes(t, F.is_call(NM.N + "should_strip_fragment")), "normalize_url(strip_fragment=True) still consults the routing predicate", n.site)
